@@ -15,30 +15,30 @@ LIBC="igris/string/replace_substrings.c igris/string/memmem.c igris/shell/mshell
 AO=(); GO=()
 for f in $LIBCXX; do
   o=$(basename $f .cpp)
-  par clang++ -std=c++17 -O1 $A -c $REPO/$f -o $BUILD/a_$o.o; AO+=($BUILD/a_$o.o)
-  par g++ -std=c++17 $G -c $REPO/$f -o $BUILD/g_$o.o; GO+=($BUILD/g_$o.o)
+  par clang++ -std=c++20 -O1 $A -c $REPO/$f -o $BUILD/a_$o.o; AO+=($BUILD/a_$o.o)
+  par g++ -std=c++20 $G -c $REPO/$f -o $BUILD/g_$o.o; GO+=($BUILD/g_$o.o)
 done
 for f in $LIBC; do
   o=$(basename $f .c)
   par clang -O1 $A -c $REPO/$f -o $BUILD/a_$o.o; AO+=($BUILD/a_$o.o)
   par gcc $G -c $REPO/$f -o $BUILD/g_$o.o; GO+=($BUILD/g_$o.o)
 done
-par clang++ -std=c++17 -O0 $A -c $H/c19_wrap.cpp -o $BUILD/a_wrap.o; AO+=($BUILD/a_wrap.o)
-par g++ -std=c++17 $G -c $H/c19_wrap.cpp -o $BUILD/g_wrap.o; GO+=($BUILD/g_wrap.o)
+par clang++ -std=c++20 -O0 $A -c $H/c19_wrap.cpp -o $BUILD/a_wrap.o; AO+=($BUILD/a_wrap.o)
+par g++ -std=c++20 $G -c $H/c19_wrap.cpp -o $BUILD/g_wrap.o; GO+=($BUILD/g_wrap.o)
 for t in text long shell path; do
-  par clang++ -std=c++17 -O1 $A -c $H/c19_$t.cpp -o $BUILD/a_h_$t.o; AO+=($BUILD/a_h_$t.o)
-  par g++ -std=c++17 $G -c $H/c19_$t.cpp -o $BUILD/g_h_$t.o; GO+=($BUILD/g_h_$t.o)
+  par clang++ -std=c++20 -O1 $A -c $H/c19_$t.cpp -o $BUILD/a_h_$t.o; AO+=($BUILD/a_h_$t.o)
+  par g++ -std=c++20 $G -c $H/c19_$t.cpp -o $BUILD/g_h_$t.o; GO+=($BUILD/g_h_$t.o)
 done
-par clang++ -std=c++17 -O2 -c -I$MC $MC/mc.cpp -o $BUILD/mc.o
+par clang++ -std=c++20 -O2 -c -I$MC $MC/mc.cpp -o $BUILD/mc.o
 # re-entrancy run: the igris sources under ThreadSanitizer, two threads on the controlled scheduler (sched.cpp and
 # mc.cpp stay uninstrumented: TSan then sees only what the code under test and the harness threads do)
 T="-O1 -g -fsanitize=thread -fno-omit-frame-pointer $INC"
 TO=()
-for f in $LIBCXX; do o=$(basename $f .cpp); par g++ -std=c++17 $T -c $REPO/$f -o $BUILD/t_$o.o; TO+=($BUILD/t_$o.o); done
+for f in $LIBCXX; do o=$(basename $f .cpp); par g++ -std=c++20 $T -c $REPO/$f -o $BUILD/t_$o.o; TO+=($BUILD/t_$o.o); done
 for f in $LIBC; do o=$(basename $f .c); par gcc $T -c $REPO/$f -o $BUILD/t_$o.o; TO+=($BUILD/t_$o.o); done
-par g++ -std=c++17 $T -c $H/c19_wrap.cpp -o $BUILD/t_wrap.o; TO+=($BUILD/t_wrap.o)
-par g++ -std=c++17 $T -c $H/c19_reentrancy.cpp -o $BUILD/t_h.o; TO+=($BUILD/t_h.o)
-par g++ -std=c++17 -O2 -g -I$MC -c $MC/sched/sched.cpp -o $BUILD/sched.o
+par g++ -std=c++20 $T -c $H/c19_wrap.cpp -o $BUILD/t_wrap.o; TO+=($BUILD/t_wrap.o)
+par g++ -std=c++20 $T -c $H/c19_reentrancy.cpp -o $BUILD/t_h.o; TO+=($BUILD/t_h.o)
+par g++ -std=c++20 -O2 -g -I$MC -c $MC/sched/sched.cpp -o $BUILD/sched.o
 parwait
 g++ -fsanitize=thread "${TO[@]}" $BUILD/sched.o $BUILD/mc.o -ldl -lpthread -o $BUILD/c19_tsan
 clang++ -fsanitize=address "${AO[@]}" $BUILD/mc.o -o $BUILD/c19_asan
